@@ -141,6 +141,7 @@ func countGE(n, t int) int {
 func TestCheck(t *testing.T) {
 	r := kit.Start(t, "C08")
 	defer r.Finish()
+	defer reportArgFindings(r)
 
 	exhLimit := 6
 	if r.Thorough() {
@@ -553,21 +554,21 @@ func (s *split) checkPositive(c *kit.Case, ids []int) {
 	if len(ids) > s.t {
 		cls = "size-gt-t"
 	}
-	rec, err := tbls.RecoverSecret(pick(s.shares, ids), uint(s.n), uint(s.t))
+	rec, err := ckRecoverSecret(pick(s.shares, ids), uint(s.n), uint(s.t))
 	switch {
 	case err != nil:
 		c.Violation("tbls/RecoverSecret/"+cls+"/error", fmt.Sprintf("RecoverSecret failed for %d>=t=%d genuine shares: %v", len(ids), s.t, err), s.witness(ids, nil))
 	case rec != s.secret:
 		c.Violation("tbls/RecoverSecret/"+cls+"/wrong-secret", fmt.Sprintf("RecoverSecret of %d>=t=%d genuine shares returned a different secret", len(ids), s.t), s.witness(ids, map[string]any{"recovered": hx(rec[:])}))
 	}
-	pub, err := tbls.RecoverPubkey(pick(s.pubs, ids))
+	pub, err := ckRecoverPubkey(pick(s.pubs, ids))
 	switch {
 	case err != nil:
 		c.Violation("tbls/RecoverPubkey/"+cls+"/error", fmt.Sprintf("RecoverPubkey failed for %d>=t=%d genuine public shares: %v", len(ids), s.t, err), s.witness(ids, nil))
 	case pub != s.group:
 		c.Violation("tbls/RecoverPubkey/"+cls+"/wrong-group-key", fmt.Sprintf("RecoverPubkey of %d>=t=%d genuine public shares differs from SecretToPublicKey(secret)", len(ids), s.t), s.witness(ids, map[string]any{"recovered": hx(pub[:])}))
 	}
-	agg, err := tbls.ThresholdAggregate(pick(s.partials, ids))
+	agg, err := ckThresholdAggregate(pick(s.partials, ids))
 	switch {
 	case err != nil:
 		c.Violation("tbls/ThresholdAggregate/"+cls+"/error", fmt.Sprintf("ThresholdAggregate failed for %d>=t=%d genuine partials: %v", len(ids), s.t, err), s.witness(ids, nil))
@@ -583,15 +584,15 @@ func (s *split) checkPositive(c *kit.Case, ids []int) {
 // checkBelow: fewer than t shares never reproduce secret, group key or signature.
 func (s *split) checkBelow(c *kit.Case, ids []int) {
 	r := c.R
-	rec, err := tbls.RecoverSecret(pick(s.shares, ids), uint(s.n), uint(s.t))
+	rec, err := ckRecoverSecret(pick(s.shares, ids), uint(s.n), uint(s.t))
 	if err == nil && rec == s.secret {
 		c.Violation("tbls/below-threshold/RecoverSecret-reproduces-secret", fmt.Sprintf("%d<t=%d shares recover the secret", len(ids), s.t), s.witness(ids, nil))
 	}
-	pub, err := tbls.RecoverPubkey(pick(s.pubs, ids))
+	pub, err := ckRecoverPubkey(pick(s.pubs, ids))
 	if err == nil && pub == s.group {
 		c.Violation("tbls/below-threshold/RecoverPubkey-reproduces-group-key", fmt.Sprintf("%d<t=%d public shares recover the group key", len(ids), s.t), s.witness(ids, nil))
 	}
-	agg, err := tbls.ThresholdAggregate(pick(s.partials, ids))
+	agg, err := ckThresholdAggregate(pick(s.partials, ids))
 	if err != nil {
 		r.Count("below_t_rejected_by_error", 1)
 		return
@@ -610,7 +611,7 @@ func (s *split) checkBelow(c *kit.Case, ids []int) {
 func (s *split) negSig(c *kit.Case, kind string, ids []int, partials map[int]tbls.Signature, w map[string]any) {
 	r := c.R
 	r.Count("neg/"+kind, 1)
-	agg, err := tbls.ThresholdAggregate(partials)
+	agg, err := ckThresholdAggregate(partials)
 	if err != nil {
 		r.Count("neg_rejected_by_aggregate_error/"+kind, 1)
 		return
@@ -628,7 +629,7 @@ func (s *split) negSig(c *kit.Case, kind string, ids []int, partials map[int]tbl
 
 // negKeys evaluates the secret / public key level oracle for a tampered share set.
 func (s *split) negKeys(c *kit.Case, kind string, ids []int, shares map[int]tbls.PrivateKey, w map[string]any) {
-	rec, err := tbls.RecoverSecret(shares, uint(s.n), uint(s.t))
+	rec, err := ckRecoverSecret(shares, uint(s.n), uint(s.t))
 	if err == nil && rec == s.secret {
 		c.Violation("tbls/substitution/"+kind+"/RecoverSecret-reproduces-secret", "tampered share set ("+kind+") still recovers the secret", s.witness(ids, w))
 	}
@@ -640,7 +641,7 @@ func (s *split) negKeys(c *kit.Case, kind string, ids []int, shares map[int]tbls
 		}
 		pubs[id] = pub
 	}
-	pub, err := tbls.RecoverPubkey(pubs)
+	pub, err := ckRecoverPubkey(pubs)
 	if err == nil && pub == s.group {
 		c.Violation("tbls/substitution/"+kind+"/RecoverPubkey-reproduces-group-key", "tampered public share set ("+kind+") still recovers the group key", s.witness(ids, w))
 	}
